@@ -418,6 +418,84 @@ fn long_pipeline(n: usize, quiet: bool) -> Result<Option<String>, String> {
     Ok(None)
 }
 
+/// A large store (within the limit) with requests pipelined behind it: set big, setq small, get
+/// small, get big, noop - in one write, and in two pieces cut 1 .. 30 bytes behind the large request
+/// (inside the next request's header, at its end, inside its body).  Every loud request is answered
+/// in order, the quiet store is executed, both values come back exactly.
+pub fn large_then_followers(tier: Tier) -> (u64, Vec<(String, String)>, Option<String>) {
+    let mut out: Vec<(String, String)> = vec![];
+    let mut n = 0u64;
+    let sizes: &[usize] = if tier == Tier::Quick { &[5000, 70_000, 300_000] } else { &[4097, 5000, 20_000, 65_537, 70_000, 300_000, 1_000_000] };
+    for &size in sizes {
+        let value: Vec<u8> = (0..size).map(|i| (i % 239) as u8).collect();
+        let big = Req::store(op::SET, b"big", &value, 0x77, 0, 0).opaque(0x10).bytes();
+        let mut tail = Req::store(op::SETQ, b"small", b"f1", 5, 0, 0).opaque(0x11).bytes();
+        tail.extend(Req::get(op::GET, b"small").opaque(0x12).bytes());
+        tail.extend(Req::get(op::GET, b"big").opaque(0x13).bytes());
+        tail.extend(Req::bare(op::NOOP).opaque(0x14).bytes());
+        let mut all = big.clone();
+        all.extend(&tail);
+        let mut cuts: Vec<Option<usize>> = vec![None];
+        for d in [1usize, 12, 23, 24, 25, 30, 40] {
+            cuts.push(Some(big.len() + d));
+        }
+        cuts.push(Some(big.len()));
+        cuts.push(Some(big.len() - 1));
+        for cut in cuts {
+            n += 1;
+            let r = (|| -> Result<Option<String>, String> {
+                let w = net::NetWorld::new(NetCfg { item_limit: 1 << 20, ..Default::default() })?;
+                let mut c = w.connect()?;
+                let sent = match cut {
+                    None => c.step(&w, &all),
+                    Some(k) => c.step(&w, &all[..k]).and_then(|_| c.step(&w, &all[k..])),
+                };
+                if let Err(e) = sent {
+                    return Ok(Some(format!("the connection was lost while sending ({})", e)));
+                }
+                for _ in 0..2000 {
+                    w.settle();
+                    let before = c.got.len();
+                    c.pump();
+                    if c.got.len() == before {
+                        break;
+                    }
+                }
+                let (resps, residue) = wire::split_responses(&c.got);
+                let seen: Vec<(u8, u16, u32)> = resps.iter().map(|r| (r.opcode, r.status, r.opaque)).collect();
+                let want = vec![(op::SET, st::OK, 0x10), (op::GET, st::OK, 0x12), (op::GET, st::OK, 0x13), (op::NOOP, st::OK, 0x14)];
+                if residue != 0 || seen != want {
+                    return Ok(Some(format!("answered {:?} ({} stray bytes), expected {:?}; connection {}", seen, residue, want, if c.eof { "closed" } else { "open" })));
+                }
+                if resps[1].value() != b"f1" || resps[1].extras() != &5u32.to_be_bytes()[..] {
+                    return Ok(Some(format!("the item stored quietly behind the large store came back as {}", resps[1].short())));
+                }
+                if resps[2].value() != &value[..] || resps[2].extras() != &0x77u32.to_be_bytes()[..] {
+                    return Ok(Some("the large item did not come back as stored".into()));
+                }
+                Ok(None)
+            })();
+            match r {
+                Ok(Some(what)) => out.push((
+                    format!("behind-large-store|{}", if cut.is_none() { "one-write" } else { "two-pieces" }),
+                    format!(
+                        "set of a {}-byte value, setq, get, get, noop {}: {}",
+                        size,
+                        match cut {
+                            None => "in one write".to_string(),
+                            Some(k) => format!("in two pieces, the second starting {} bytes behind the large request", k as i64 - big.len() as i64),
+                        },
+                        what
+                    ),
+                )),
+                Ok(None) => {}
+                Err(e) => return (n, out, Some(e)),
+            }
+        }
+    }
+    (n, out, None)
+}
+
 type Content = Vec<(Vec<u8>, Vec<u8>, u32, u32)>;
 
 fn content(d: &[crate::sut::DumpItem]) -> Content {
@@ -656,6 +734,16 @@ pub fn check(tier: Tier, threads: usize) -> CheckOutcome {
             }
         }
     }
+    {
+        let (ln, lviol, lerr) = large_then_followers(tier);
+        runs += ln;
+        if let Some(e) = lerr {
+            mach = Some(e);
+        }
+        for (sig, what) in lviol {
+            found.entry(sig.clone()).or_insert(Violation { signature: sig, what, replay: json!({"engine": "c12-behind-large-store"}) });
+        }
+    }
     let (bp_n, bp_viol, bp_err) = backpressure(tier);
     if let Some(e) = bp_err {
         mach = Some(e);
@@ -684,7 +772,7 @@ pub fn check(tier: Tier, threads: usize) -> CheckOutcome {
             "alphabet": alpha.iter().map(|e| e.name()).collect::<Vec<_>>(),
             "samples": samples,
             "exhaustive": true,
-            "rule": "every stream of 1..2 requests (thorough: 3) over the alphabet of all opcodes 0x00-0x24 (hit/miss, success/error operands, loud and quiet, unimplemented, undefined) plus every stream with quit/quitq in the middle, each sent in one segment, byte-at-a-time, and in one segment followed at once by the client's FIN (thorough: every single cut of 2-request streams) over real loopback TCP; responses matched to requests by opaque in order and validated by the sequential specification; final store compared with the specification state; plus every stream [<a>] quit|quitq <b> sent on an established connection that the client resets at once (the server reads every byte, its writes and its shutdown fail): the store must end as before the stream or as after <a>; plus pipelines of 130 .. 70000 (thorough 140000) loud noops, and as many quiet sets followed by a get, each ending in quit, in one write",
+            "rule": "every stream of 1..2 requests (thorough: 3) over the alphabet of all opcodes 0x00-0x24 (hit/miss, success/error operands, loud and quiet, unimplemented, undefined) plus every stream with quit/quitq in the middle, each sent in one segment, byte-at-a-time, and in one segment followed at once by the client's FIN (thorough: every single cut of 2-request streams) over real loopback TCP; responses matched to requests by opaque in order and validated by the sequential specification; final store compared with the specification state; plus every stream [<a>] quit|quitq <b> sent on an established connection that the client resets at once (the server reads every byte, its writes and its shutdown fail): the store must end as before the stream or as after <a>; plus pipelines of 130 .. 70000 (thorough 140000) loud noops, and as many quiet sets followed by a get, each ending in quit, in one write; plus a large store within the limit (5 KB .. 1 MB) with a quiet store, two gets and a noop pipelined behind it, in one write and cut 1 .. 40 bytes behind the large request",
         }),
         assumptions: vec!["tokio paused-clock quiescence; loopback delivery before the send syscall returns".into()],
         violations: found.into_values().collect(),
